@@ -7,7 +7,12 @@ RULE = ("designed scenarios with decay factors 1, 1/2, 3/4 per pipe (1-3 section
 
 
 def main():
-    return therm.run_check("C10", RULE)
+    from . import core, c11
+    V = core.Verdicts("C10")
+    extra = c11.run("C10", ("C10.",), nq=300, V=V, evidence=False)     # designed loops: feed / supply / return temperatures, second producer
+    rc1 = V.finish()
+    rc2 = therm.run_check("C10", RULE, extra_cov=extra, prior_violations=len(V.violations))
+    return 1 if (rc1 or rc2) else 0
 
 
 def replay(path):
